@@ -850,6 +850,11 @@ def c16_loop_and_json(res, seed, tier):
             # (event-free: the economy is at its initial state at every periodic check)
             sc = scen.gen_scenario(s, "eventfree", T=800, m=1, n=2, k=1)
             sc["model"]["dt"] = rng.choice([1, 1, 2])
+            sc["model"]["alpha_tau"] = max(sc["model"]["alpha_tau"], sc["model"]["dt"])
+            if isinstance(sc["model"].get("restoration_tau"), int):
+                sc["model"]["restoration_tau"] = max(sc["model"]["restoration_tau"], sc["model"]["dt"])
+            elif isinstance(sc["model"].get("restoration_tau"), dict):
+                sc["model"]["restoration_tau"] = {k_: max(v_, sc["model"]["dt"]) for k_, v_ in sc["model"]["restoration_tau"].items()}
             sc["T"] = 800
         else:
             sc = scen.gen_scenario(s, rng.choice(["shocked", "crash"]), T=rng.choice([6, 10]), max_occ=3)
